@@ -2,6 +2,8 @@
 # seedeval.sh <ID or seeded dir name, e.g. C03-r2> [tier]: applies /verif/seeded/<ID>/patch.diff to a scratch worktree of /repo's HEAD,
 # runs ./check <ID> against it, prints the verdict, removes the worktree.
 dir=$1; id=$(echo $dir | cut -c1-3); tier=${2:-quick}
+cb=$(python3 -c "import json,sys; print(json.load(open(sys.argv[1])).get('checked_by',''))" /verif/seeded/$dir/meta.json 2>/dev/null)
+[ -n "$cb" ] && id=$cb
 wt=/tmp/lead-seed-$id
 git -C /repo worktree remove --force $wt 2>/dev/null
 git -C /repo worktree add --detach $wt HEAD -q || exit 2
